@@ -288,7 +288,7 @@ def penalties(draw):
 
 @st.composite
 def transceiver_entries(draw, band=(191.3e12, 196.1e12), n_modes=(1, 5), osnr=(8, 30), with_penalties=True,
-                        offsets=False):
+                        offsets=False, wide_spacing=False):
     """one transceiver type 'T0' (+ optionally 'T1') with generated modes named m0.."""
     out = []
     for t in range(draw(st.integers(1, 2))):
@@ -300,6 +300,10 @@ def transceiver_entries(draw, band=(191.3e12, 196.1e12), n_modes=(1, 5), osnr=(8
                  'bit_rate': draw(st.sampled_from([100e9, 200e9, 300e9, 400e9])), 'roll_off': 0.15,
                  'tx_osnr': draw(st.sampled_from([100, 40, 45, 36])),
                  'min_spacing': {28e9: 37.5e9, 32e9: 50e9, 44e9: 62.5e9, 64e9: 75e9, 66e9: 75e9}[b], 'cost': 1}
+            if wide_spacing and draw(st.integers(0, 3)) == 0:
+                # a mode that needs more room than its baud rate alone (e.g. a higher-order format): modes of one baud rate
+                # may differ in min_spacing
+                m['min_spacing'] += draw(st.sampled_from([12.5e9, 25e9]))
             if with_penalties and draw(st.booleans()):
                 m['penalties'] = draw(penalties())
             if offsets and draw(st.booleans()):
